@@ -116,14 +116,15 @@ class TableBuilder:
         owner, fn = self.resolve(cls, "mask_func")
         if fn is None:
             raise Untranslatable(f"{cls}.mask_func not found")
-        withs = [n for n in ast.walk(fn) if isinstance(n, ast.With) and any(self._temp_seed_item(i) for i in n.items)]
-        scope_ok = False
-        if len(withs) == 1:
-            it = next(i for i in withs[0].items if self._temp_seed_item(i))
-            a = it.context_expr.args
-            params = [x.arg for x in fn.args.args]
-            scope_ok = (len(a) == 2 and ast.unparse(a[0]) == "self.rng" and ast.unparse(a[1]) == "seed"
-                        and "seed" in params and not it.context_expr.keywords)
+        # the scope of the call: exactly one `with` that opens `temp_seed(self.rng, seed)` — written out, or through a
+        # context manager of the class / module that delegates to it (`with self._seeded_rng(seed): …`)
+        opened = []
+        for n in ast.walk(fn):
+            if isinstance(n, ast.With):
+                for it in n.items:
+                    opened += self._scopes_opened(it, cls)
+        params = [x.arg for x in fn.args.args]
+        scope_ok = (len(opened) == 1 and opened[0][0] == "self.rng" and opened[0][1] == "seed" and "seed" in params)
         acs_ifs = [n.lineno for n in ast.walk(fn) if isinstance(n, ast.If) and "return_acs" in ast.unparse(n.test)
                    and any(isinstance(s, ast.Return) for s in n.body)]
         acs_line = min(acs_ifs) if acs_ifs else -1
@@ -133,6 +134,74 @@ class TableBuilder:
         self.walk_fn(fn, owner, cls, in_priv_scope=False, param_prov={}, lead=None)
         self.gens.append(g)
 
+    def _resolve_call(self, call: ast.Call, cls):
+        """(owner, function) of a call to a method of the class hierarchy / another class / a module function"""
+        ch = _chain(call.func) if isinstance(call, ast.Call) else None
+        if not ch:
+            return None, None
+        parts = ch.split(".")
+        if len(parts) == 2 and parts[0] == "self":
+            return self.resolve(cls, parts[1])
+        if len(parts) == 2 and parts[0] in self.classes:
+            return self.resolve(parts[0], parts[1])
+        if len(parts) == 1 and parts[0] in self.funcs and parts[0] != "temp_seed":
+            return None, self.funcs[parts[0]]
+        return None, None
+
+    @staticmethod
+    def _bind(callee, call: ast.Call) -> dict:
+        """parameter name -> argument expression of this call (defaults for the rest)"""
+        a = callee.args
+        names = [x.arg for x in a.posonlyargs + a.args if x.arg not in ("self", "cls")]
+        out = {}
+        pos = a.posonlyargs + a.args
+        for prm, d in zip(reversed(pos), reversed(a.defaults)):
+            out[prm.arg] = d
+        for prm, d in zip(a.kwonlyargs, a.kw_defaults):
+            if d is not None:
+                out[prm.arg] = d
+        for nm, arg in zip(names, call.args):
+            out[nm] = arg
+        for kw in call.keywords:
+            if kw.arg:
+                out[kw.arg] = kw.value
+        return out
+
+    def _cm_info(self, callee) -> list:
+        """for a `@contextmanager` function: [(stream text, seed text, yielded text)] of every `with temp_seed(…)` of its
+        body that contains the `yield` (the caller's `with` body runs inside that scope)"""
+        if callee is None or not any("contextmanager" in ast.unparse(d) for d in callee.decorator_list):
+            return []
+        out = []
+        for n in ast.walk(callee):
+            if isinstance(n, ast.With):
+                ys = [y for b in n.body for y in ast.walk(b) if isinstance(y, ast.Yield)]
+                if not ys:
+                    continue
+                for it in n.items:
+                    if self._temp_seed_item(it) and len(it.context_expr.args) == 2 and not it.context_expr.keywords:
+                        a = it.context_expr.args
+                        out.append((ast.unparse(a[0]), ast.unparse(a[1]),
+                                    ast.unparse(ys[0].value) if ys[0].value is not None else None))
+        return out
+
+    def _scopes_opened(self, item: ast.withitem, cls) -> list:
+        """[(stream text, seed text, yielded text)] in the *caller's* terms of the temp_seed scopes a `with` item opens"""
+        c = item.context_expr
+        if self._temp_seed_item(item):
+            if len(c.args) == 2 and not c.keywords:
+                return [(ast.unparse(c.args[0]), ast.unparse(c.args[1]), None)]
+            return [("?", "?", None)]
+        if not isinstance(c, ast.Call):
+            return []
+        _, callee = self._resolve_call(c, cls)
+        info = self._cm_info(callee)
+        if not info:
+            return []
+        bound = self._bind(callee, c)
+        tr = lambda txt: (ast.unparse(bound[txt]) if txt in bound else txt) if txt is not None else None  # noqa: E731
+        return [(tr(st), tr(sd), tr(y)) for st, sd, y in info]
+
     @staticmethod
     def _temp_seed_item(item: ast.withitem) -> bool:
         c = item.context_expr
@@ -141,7 +210,11 @@ class TableBuilder:
     # -- walking ---------------------------------------------------------------------------------
     def walk_fn(self, fn, owner, cls, in_priv_scope, param_prov, lead):
         qual = f"{owner}.{fn.name}" if owner else fn.name
-        key = (qual, in_priv_scope, lead, tuple(sorted(param_prov.items())))
+        pend = getattr(self, "_pending", None) or {}
+        self._pending = None
+        alias = dict(pend.get("alias", {}))          # parameter -> (stream class, in scope at the call site)
+        key = (qual, in_priv_scope, lead, tuple(sorted(param_prov.items())), tuple(sorted(alias.items())),
+               bool(pend.get("guard")))
         if key in self._visited:
             return
         self._visited.add(key)
@@ -152,9 +225,13 @@ class TableBuilder:
                 fresh.add(n.targets[0].id)
         ctx = {"qual": qual, "cls": cls, "fresh": fresh, "params": {a.arg for a in fn.args.args},
                "param_prov": param_prov, "top": lead is None}
+        ctx["alias"] = {k: v[0] for k, v in alias.items()}
         self._fn_facts(fn, ctx)
         self.reach.setdefault(qual, "walked")
-        self.walk_body(fn.body, ctx, scopes={"self.rng"} if in_priv_scope else set(), lead=lead)
+        scopes = ({"self.rng"} if in_priv_scope else set()) | {k for k, v in alias.items() if v[1]}
+        if pend.get("guard"):
+            scopes.add("<fresh-under-seed-is-None>")
+        self.walk_body(fn.body, ctx, scopes=scopes, lead=lead)
 
     def _fn_facts(self, fn, ctx):
         """locals, nested functions, mutable defaults and memoising decorators of a function about to be walked"""
@@ -250,6 +327,16 @@ class TableBuilder:
                     self.walk_expr(it.context_expr, ctx, scopes, self._lead_of(ctx, st, lead))
                     if self._temp_seed_item(it) and it.context_expr.args:
                         new.add(ast.unparse(it.context_expr.args[0]))
+                    elif isinstance(it.context_expr, ast.Call):
+                        # a context manager of the class / module that delegates to temp_seed: its scopes hold in the body
+                        for stream, _sd, yielded in self._scopes_opened(it, ctx["cls"]):
+                            new.add(stream)
+                            if yielded == stream and isinstance(it.optional_vars, ast.Name):
+                                src = "priv" if stream == "self.rng" else ctx.get("alias", {}).get(stream) or \
+                                    ("fresh" if stream in ctx["fresh"] else None)
+                                if src:
+                                    ctx.setdefault("alias", {})[it.optional_vars.id] = src
+                                    new.add(it.optional_vars.id)
                 self.walk_body(st.body, ctx, new, lead)
             elif isinstance(st, (ast.For, ast.While)):
                 self.walk_expr(st.iter if isinstance(st, ast.For) else st.test, ctx, scopes, self._lead_of(ctx, st, lead))
@@ -282,6 +369,8 @@ class TableBuilder:
             return "priv"
         if len(parts) == 2 and parts[0] in ctx["fresh"]:
             return "fresh"
+        if len(parts) == 2 and parts[0] in ctx.get("alias", {}):
+            return ctx["alias"][parts[0]]          # a parameter / `as` name bound to a known stream by the caller
         if _is_ctor(chain):
             return None
         if chain.startswith(("np.random.", "numpy.random.")):
@@ -319,6 +408,8 @@ class TableBuilder:
             src = self.classify(chain, ctx)
             if src is not None:
                 stream = {"priv": "self.rng", "fresh": parts[0]}.get(src)
+                if len(parts) == 2 and parts[0] in ctx.get("alias", {}):
+                    stream = parts[0]
                 in_scope = stream in scopes if stream else bool(scopes - {"<fresh-under-seed-is-None>"})
                 if src == "fresh" and "<fresh-under-seed-is-None>" in scopes:
                     in_scope = True
@@ -374,7 +465,20 @@ class TableBuilder:
                     d = self._priv_draw_in(kw.value, ctx, scopes)
                     if d is not None and kw.arg:
                         prov[kw.arg] = d
+                # stream objects handed to the callee (`_draw_integer_seed(rng)`, `helper(self.rng)`): its parameter is
+                # that stream, in scope iff the stream is in scope here
+                al = {}
+                for prm, arg in self._bind(callee, n).items():
+                    txt = ast.unparse(arg) if isinstance(arg, ast.AST) else None
+                    if txt == "self.rng":
+                        al[prm] = ("priv", "self.rng" in scopes)
+                    elif isinstance(arg, ast.Name) and arg.id in ctx["fresh"]:
+                        al[prm] = ("fresh", arg.id in scopes or "<fresh-under-seed-is-None>" in scopes)
+                    elif isinstance(arg, ast.Name) and arg.id in ctx.get("alias", {}):
+                        al[prm] = (ctx["alias"][arg.id], arg.id in scopes)
+                self._pending = {"alias": al, "guard": "<fresh-under-seed-is-None>" in scopes}
                 self.walk_fn(callee, owner, ctx["cls"], "self.rng" in scopes, prov, bool(lead))
+                self._pending = None
                 continue
             self._classify_other_call(n, chain, parts, ctx, scopes, lead)
 
